@@ -415,6 +415,9 @@ StructAlphabet ==      \* C16: .repeat bodies (own '.', impure operators, hoiste
     Rep(2, << Lab("z") >>), Rep(2, << Const("z", Num(1)) >>),
     [k |-> "insert", len |-> 0], [k |-> "insert", len |-> 7], [k |-> "insert", len |-> 300],
     [k |-> "end"], Inc(1), Inc(2), Lab("a"), Lab("1"), Const("c", Num(3)), I0("nop"), W(<<A, Dot>>), By(<<Num(5)>>) }
+StructBigAlphabet ==   \* C16: large repeat counts (the property's n <= 40), kept out of the exhaustive alphabet for size
+  { Rep(40, << By(<< Bin("-", Dot, A) >>) >>), Rep(17, << W(<< Dot >>), I1("movr", A) >>), Rep(33, << Rep(2, << [k |-> "even"], By(<< Num(1) >>) >>) >>),
+    Lab("a"), I0("nop"), By(<< Num(5) >>) }
 StructIncFiles == << [name |-> "i1", body |-> << [k |-> "once"], LabX("x"), W(<< Sym("x"), Dot >>) >>],
                      [name |-> "i2", body |-> << W(<< Dot >>), [k |-> "end"], W(<< Sym("undefined") >>) >>] >>
 
